@@ -13,7 +13,7 @@ use std::process::{Command, Stdio};
 use std::time::{Duration, Instant};
 
 pub const DIRECTIONS: [&str; 5] = ["car-nest", "cdr-nest", "alist", "vector-nest", "quote-chain"];
-pub const DATA_OPS: [&str; 8] = ["read", "quote-evaluate", "build", "build-sliced", "collect", "equal", "write", "drop"];
+pub const DATA_OPS: [&str; 10] = ["read", "quote-evaluate", "build", "build-sliced", "collect", "equal", "write", "drop", "sweep-dead", "sweep-dead-copied"];
 pub const OTHER: [&str; 8] = [
     "closure-chain/build",
     "closure-chain/collect",
@@ -32,6 +32,11 @@ pub fn scenarios() -> Vec<String> {
     let mut v = vec![];
     for d in DIRECTIONS {
         for o in DATA_OPS {
+            // reclaiming a dead structure is exercised on the list directions, whose construction
+            // does not already run into the (known) recursion of the marker
+            if o.starts_with("sweep-dead") && !matches!(d, "cdr-nest" | "alist") {
+                continue;
+            }
             v.push(format!("{}/{}", d, o));
         }
     }
@@ -223,6 +228,28 @@ fn scenario_body(scenario: &str, n: usize) -> String {
                 vm.verif_collect();
                 // still usable afterwards
                 run_forms(&mut vm, &["(pair? d1)".into()])
+            }
+            (d, "sweep-dead") | (d, "sweep-dead-copied") => {
+                // the structure becomes garbage and is reclaimed by the collector: once as the
+                // builder left it, once after the heap has been churned and the structure copied
+                // (other allocation order, the heap has grown before)
+                run_forms(&mut vm, &build_program(d, "d1", n))?;
+                if op == "sweep-dead-copied" {
+                    run_forms(
+                        &mut vm,
+                        &[
+                            "(define (%copy x) (cond ((pair? x) (reverse (reverse x))) ((vector? x) (vector-copy x)) (else x)))".into(),
+                            "(define d1 (%copy d1))".into(),
+                        ],
+                    )?;
+                }
+                // (no collection while the structure is live: that is the `collect` operation)
+                run_forms(&mut vm, &["(define d1 'gone)".into()])?;
+                vm.verif_collect();
+                vm.verif_collect();
+                // still usable afterwards
+                run_forms(&mut vm, &build_program(d, "d3", 10))?;
+                run_forms(&mut vm, &["(pair? d3)".into()])
             }
             (d, "equal") => {
                 run_forms(&mut vm, &build_program(d, "d1", n))?;
